@@ -6,6 +6,7 @@ use std::panic::{catch_unwind, AssertUnwindSafe};
 mod alloc;
 mod combo_cmd;
 mod derive_cmd;
+#[cfg(feature = "compiled_specs")]
 mod derive_specs;
 mod dynspec;
 mod reader_cmd;
